@@ -1,7 +1,7 @@
 #!/bin/bash
 # usage: collect_seed.sh <Cxx> [suffix]  — copies a mutation agent's output (/tmp/mut2/<Cxx>/out) to /verif/seeded/<Cxx><suffix>/
 id=$1; suf=${2:-b}
-src=/tmp/mut2/$id/out
+src=/tmp/mut${MUTROUND:-2}/$id/out
 dst=/verif/seeded/$id$suf
 [ -f $src/patch.diff ] || { echo "no output for $id"; exit 1; }
 mkdir -p $dst
